@@ -9,6 +9,7 @@ consumed ANY stream is the encoding for exactly those modes (`Spec.specModesOfSt
 DECKPAM / DECKPNM, RIS = every input mode back to power-on), and nothing else in the stream matters.
 -/
 import VaxisModel.Lemmas.TermChildSpec
+import VaxisModel.Props.C13
 
 namespace VaxisModel.Props.C13Child
 open VaxisModel.Model.Emu VaxisModel.Model.TermChild VaxisModel.Gen.TermModes
@@ -206,6 +207,44 @@ theorem after_ris_nothing_enabled (u : Uni) {e0 e : Emu} (before after : List EO
   refine ⟨rfl, rfl, rfl, ?_⟩
   intro m
   simp [update, VaxisModel.Model.TermMouse.handleMouse]
+
+/-! ## End to end: the property's clauses with the modes read off the child's stream -/
+
+/-- **cursor_keys_follow_child_stream.** "The child's cursor-key mode selects the encoding it asked for":
+    after ANY stream of the child's output (from any emulator state), an unmodified cursor key (press or
+    repeat) is written in SS3 form iff the stream last left DECCKM set — `CSI ? 1 h` not followed by
+    `CSI ? 1 l` or RIS — and in CSI form otherwise. -/
+theorem cursor_keys_follow_child_stream (u : Uni) {e0 e : Emu} {ops : List EOp} (h : runOps e0 ops = .ok e)
+    (k : VaxisModel.Model.Key.Key) (fin : Int) (hk : (k.keycode, fin) ∈ cursorKeys)
+    (hm : k.mods &&& VaxisModel.Gen.Keys.ModShift = 0 ∧ k.mods &&& VaxisModel.Gen.Keys.ModAlt = 0 ∧ k.mods &&& VaxisModel.Gen.Keys.ModCtrl = 0)
+    (hev : k.event ≠ VaxisModel.Gen.Keys.EventRelease) :
+    update u (inputModes e.mode) (.key k) =
+      renderSeq (cursorSeq fin (specModesFrom (inputModes e0.mode) (ops.map seqOf)).decckm) := by
+  rw [child_stream_selects_modes h]
+  simp only [update, hev, if_false]
+  exact VaxisModel.Props.C13.cursor_mode_selects u k _ _ fin hk hm
+
+/-- **paste_follows_child_stream.** A paste boundary is written — as exactly `CSI 200 ~` / `CSI 201 ~` — iff
+    the child's stream last left mode 2004 set; otherwise nothing is written. -/
+theorem paste_follows_child_stream (u : Uni) {e0 e : Emu} {ops : List EOp} (h : runOps e0 ops = .ok e) :
+    let md := specModesFrom (inputModes e0.mode) (ops.map seqOf)
+    (md.paste = false → update u (inputModes e.mode) .pasteStart = [] ∧ update u (inputModes e.mode) .pasteEnd = []) ∧
+    (md.paste = true → update u (inputModes e.mode) .pasteStart = renderSeq pasteStartSeq ∧
+                       update u (inputModes e.mode) .pasteEnd = renderSeq pasteEndSeq) := by
+  rw [child_stream_selects_modes h]
+  exact VaxisModel.Props.C13.paste_gated u _
+
+/-- **mouse_gated_by_child_stream.** A press / release / motion event the child's stream has not enabled
+    (1000 / 1002 / 1003 as last selected; RIS disables all), and to which alternate scroll does not apply,
+    writes nothing. -/
+theorem mouse_gated_by_child_stream (u : Uni) {e0 e : Emu} {ops : List EOp} (h : runOps e0 ops = .ok e)
+    (m : VaxisModel.Model.Mouse.Mouse)
+    (hev : m.event = VaxisModel.Gen.Keys.EventPress ∨ m.event = VaxisModel.Gen.Keys.EventRelease ∨ m.event = VaxisModel.Gen.Keys.EventMotion)
+    (hen : enabledFor (specModesFrom (inputModes e0.mode) (ops.map seqOf)) m = false)
+    (halt : altScrollApplies (specModesFrom (inputModes e0.mode) (ops.map seqOf)) m = false) :
+    update u (inputModes e.mode) (.mouse m) = [] := by
+  rw [child_stream_selects_modes h]
+  exact VaxisModel.Props.C13.mouse_gated u _ m hev hen halt
 
 /-! ## Non-vacuity: a concrete session on a small terminal -/
 
